@@ -10,7 +10,7 @@ from .. import gen_notes as G
 ID = "C08"
 N_QUICK, N_THOROUGH = 1200, 60000
 RULE = ("position-sorted random streams (1..16 columns, players 0..2 with gaps, denominators on and off the tick grid, mixed in a measure, skipped "
-        "measures, all types, keysounds), the empty stream, the notes of every corpus chart and of C07-style generated texts; compares the text of "
+        "measures, all types, keysounds), handed over as list / tuple / iterator / generator / filter object / NoteData, the empty stream in each of these forms, the notes of every corpus chart and of C07-style generated texts; compares the text of "
         "NoteData.from_notes with the model's encoder and the decoded notes; non-trivial = at least 2 notes")
 assumptions = ["input beats are reduced fractions (Fraction normalises them)"]
 extra_trusted = []
@@ -18,6 +18,8 @@ extra_trusted = []
 
 def corpus():
     out = [{"k": "stream", "cols": 4, "notes": []}, {"k": "stream", "cols": 1, "notes": []}]
+    out += [{"k": "stream", "cols": 4, "notes": [], "via": v} for v in VIAS[1:]]                    # an empty stream that is not a sized container
+    out += [{"k": "stream", "cols": 4, "notes": [[0, 1, 0, "1", 0, None], [1, 2, 3, "M", 0, None]], "via": v} for v in VIAS[1:]]
     out += [{"k": "corpus", "i": i} for i in range(len(G.corpus_charts()))]
     out.append({"k": "stream", "cols": 4, "notes": [[0, 1, 0, "1", 0, None], [1, 1, 1, "1", 2, None]]})          # gap player regression
     out.append({"k": "stream", "cols": 2, "notes": [[1, 8, 0, "1", 0, None], [1, 3, 1, "1", 0, None]]})          # lcm 24 -> 96 rows
@@ -25,12 +27,33 @@ def corpus():
     return out
 
 
+VIAS = ["list", "iter", "gen", "tuple", "filter", "notedata"]        # how the stream reaches from_notes (it takes any iterable)
+
+
 def gen(rng, i, tier):
+    via = rng.choice(VIAS) if rng.random() < 0.4 else "list"
     if rng.random() < 0.2:
         g = G.rand_grid(rng, max_measures=3)
-        return {"k": "stream", "cols": len(g[0][0][0]), "notes": G.expected_notes(g)}
+        return {"k": "stream", "cols": len(g[0][0][0]), "notes": G.expected_notes(g), "via": via}
     cols, ns = G.rand_stream(rng)
-    return {"k": "stream", "cols": cols, "notes": ns}
+    if rng.random() < 0.05:
+        ns = []
+    return {"k": "stream", "cols": cols, "notes": ns, "via": via}
+
+
+def as_stream(notes, via, cols):
+    if via == "iter":
+        return iter(notes)
+    if via == "gen":
+        return (n for n in notes)
+    if via == "tuple":
+        return tuple(notes)
+    if via == "filter":
+        return filter(lambda n: True, notes)
+    if via == "notedata":
+        from simfile.notes import NoteData
+        return NoteData.from_notes(notes, cols)                 # a NoteData is itself an iterable of its notes
+    return notes
 
 
 def stream_of(c):
@@ -44,7 +67,7 @@ def stream_of(c):
 def impl(c):
     from simfile.notes import NoteData
     cols, ns = stream_of(c)
-    nd = NoteData.from_notes([G.mk_note(o) for o in ns], cols)
+    nd = NoteData.from_notes(as_stream([G.mk_note(o) for o in ns], c.get("via", "list"), cols), cols)
     text = str(nd)
     back = [G.note_obs(n) for n in nd]
     again = str(NoteData.from_notes(list(nd), nd.columns))
@@ -103,7 +126,7 @@ def describe(c):
     if c["k"] == "corpus":
         return "corpus"
     ns = c["notes"]
-    return "cols%d/players%s/n%d" % (c["cols"], "".join(str(p) for p in sorted({n[4] for n in ns})), 10 * (len(ns) // 10))
+    return "cols%d/players%s/n%d/%s" % (c["cols"], "".join(str(p) for p in sorted({n[4] for n in ns})), 10 * (len(ns) // 10), c.get("via", "list"))
 
 
 def shrink(c):
